@@ -344,6 +344,12 @@ func (p *Prog) indexBoundedByLoop(f *Fn, ie *ast.IndexExpr) bool {
 				if SameExpr(f.Pkg, Unparen(l.X), Unparen(ie.X)) {
 					return true
 				}
+				// for i := range y, indexing x made with len(y)
+				lenY := &ast.CallExpr{Fun: ast.NewIdent("len"), Args: []ast.Expr{l.X}}
+				if p.madeWithLen(f, ie.X, l.X) {
+					_ = lenY
+					return true
+				}
 			}
 		case *ast.ForStmt:
 			cond, ok := l.Cond.(*ast.BinaryExpr)
@@ -377,6 +383,39 @@ func (p *Prog) indexBoundedByLoop(f *Fn, ie *ast.IndexExpr) bool {
 	return false
 }
 
+// madeWithLen: x is a local whose single definition is make(T, len(y)) and neither x nor y is reassigned.
+func (p *Prog) madeWithLen(f *Fn, x ast.Expr, y ast.Expr) bool {
+	o := ObjOf(f.Pkg, x)
+	if o == nil {
+		return false
+	}
+	ds := DefsOf(f, o)
+	if len(ds) != 1 {
+		return false
+	}
+	call, ok := Unparen(ds[0]).(*ast.CallExpr)
+	if !ok || len(call.Args) < 2 || ExprString(call.Fun) != "make" {
+		return false
+	}
+	lc, ok := Unparen(call.Args[1]).(*ast.CallExpr)
+	if !ok || len(lc.Args) != 1 || ExprString(lc.Fun) != "len" || !SameExpr(f.Pkg, lc.Args[0], y) {
+		return false
+	}
+	// y (a field or variable) is not assigned elsewhere in f after its definition
+	cnt := 0
+	ast.Inspect(f.Decl.Body, func(n ast.Node) bool {
+		if as, ok := n.(*ast.AssignStmt); ok {
+			for _, l := range as.Lhs {
+				if SameExpr(f.Pkg, l, y) {
+					cnt++
+				}
+			}
+		}
+		return true
+	})
+	return cnt == 0
+}
+
 // madeWith: the latest definition of x (variable or field) inside f is make(T, bound) with a structurally equal bound
 // whose variables are not reassigned in f.
 func (p *Prog) madeWith(f *Fn, x ast.Expr, bound ast.Expr) bool {
@@ -395,6 +434,36 @@ func (p *Prog) madeWith(f *Fn, x ast.Expr, bound ast.Expr) bool {
 		}
 		return true
 	})
+	if n == 0 {
+		// x is obj.F and obj's single definition is a composite literal with F: make(T, bound)
+		if se, ok := Unparen(x).(*ast.SelectorExpr); ok {
+			if o := ObjOf(f.Pkg, se.X); o != nil {
+				if ds := DefsOf(f, o); len(ds) == 1 {
+					lit := Unparen(ds[0])
+					if ue, isU := lit.(*ast.UnaryExpr); isU {
+						lit = Unparen(ue.X)
+					}
+					if cl, isCL := lit.(*ast.CompositeLit); isCL {
+						for _, el := range cl.Elts {
+							if kv, isKV := el.(*ast.KeyValueExpr); isKV {
+								if id, isId := kv.Key.(*ast.Ident); isId && id.Name == se.Sel.Name {
+									def, n = kv.Value, 1
+								}
+							}
+						}
+					}
+				}
+			}
+		}
+		// x is a local whose single definition is the make
+		if n == 0 {
+			if o := ObjOf(f.Pkg, x); o != nil {
+				if ds := DefsOf(f, o); len(ds) == 1 {
+					def, n = ds[0], 1
+				}
+			}
+		}
+	}
 	if n != 1 || def == nil {
 		return false
 	}
